@@ -171,6 +171,11 @@ def describe(run, pos):
 
 
 def model_checks(ctx, cfgs, negs, live=None):
+    if os.environ.get("VERIF_RT_SKIP_MC") == "1":
+        # only for mutation experiments in a scratch copy (tools/scratch.sh): binding part alone
+        vlib.log("VERIF_RT_SKIP_MC=1: model checking skipped (mutation experiment)")
+        ctx.cov["model_checking_skipped"] = True
+        return
     for cfg, note in cfgs:
         res = ctx.model_check(MOD, cfg, workers=8, timeout=3000, xmx="10g")
         vlib.require_ok(res, cfg)
